@@ -88,13 +88,20 @@ impl<'g> Args<'g> {
         ((hi as u64) << 32) | lo as u64
     }
     pub fn string(&mut self) -> String {
-        let s = format!("s{}{}", self.fresh(), self.rng.pick(&["", "x", "\u{e9}", "quo\"te", "gr\u{f6}\u{df}e_\u{fc}bergabe_pr\u{fc}fen", "\u{65e5}\u{672c}\u{8a9e}\u{65e5}\u{672c}\u{8a9e}", "\u{e9}\u{e9}"]));
+        let mut s = format!("s{}{}", self.fresh(), self.rng.pick(&["", "x", "\u{e9}", "quo\"te", "gr\u{f6}\u{df}e_\u{fc}bergabe_pr\u{fc}fen", "\u{65e5}\u{672c}\u{8a9e}\u{65e5}\u{672c}\u{8a9e}", "\u{e9}\u{e9}"]));
+        // now and then a string whose length sits at a power of two or a word boundary far from the short ones
+        if !self.full && self.rng.chance(1, 40) { let n = *self.rng.pick(LONG_LENGTHS); if n > s.len() { s = format!("{}{}", s, long_string(n - s.len())); } }
         self.flat.push(json!({"s": jbytes(s.as_bytes())}));
         s
     }
     pub fn opt_string(&mut self) -> Option<String> { if !self.omit() { Some(self.string()) } else { None } }
     /// length of a list argument: seldom empty (an empty list hides what the method does with its elements)
-    fn count(&mut self, n: usize) -> usize { if self.omitted { 0 } else if !self.full && self.rng.chance(1, 8) { 0 } else { 1 + self.rng.below(n - 1) } }
+    fn count(&mut self, n: usize) -> usize {
+        if self.omitted { 0 } else if !self.full && self.rng.chance(1, 8) { 0 }
+        // now and then a list far longer than the short ones (a length at a power of two and its neighbours)
+        else if !self.full && self.rng.chance(1, 60) { *self.rng.pick(&[8usize, 9, 15, 16, 17, 31, 32, 33, 63, 64, 65, 255, 256, 257]) }
+        else { 1 + self.rng.below(n - 1) }
+    }
     pub fn words(&mut self) -> Vec<u32> {
         if let Some(ws) = self.forced_words.take() { for w in &ws { self.flat_w(*w); } return ws; }
         (0..self.count(4)).map(|_| self.word()).collect()
